@@ -110,8 +110,45 @@ func RunRace(sc *RaceScenario) string {
 		<-start
 		gotP = drainAny(seq.Start(companion(pts)))
 	}()
+	// the range iterators over collections of ONE type on several goroutines, each over its own
+	// collection (a map, a slice, a string)
+	gotM := make([]map[int]int, 3)
+	wantM := make([]map[int]int, 3)
+	gotSl := make([][]int, 3)
+	for g := 0; g < 3; g++ {
+		g := g
+		wantM[g] = map[int]int{}
+		for i := 0; i < 6+sc.K; i++ {
+			wantM[g][g*1000+i] = g*1000 + i*7
+		}
+		wg.Add(1)
+		go func() {
+			defer wg.Done()
+			<-start
+			gotM[g] = map[int]int{}
+			for it := seq.NewMapIter(wantM[g]); it.MoveNext(); {
+				p := it.Current()
+				gotM[g][p.Key] = p.Val
+			}
+			xs := []int{g, g + 1, g + 2, sc.N}
+			for it := seq.NewSliceIter(xs); it.MoveNext(); {
+				gotSl[g] = append(gotSl[g], it.Current().Val+it.Current().Key)
+			}
+			for it := seq.NewStringIter(fmt.Sprint("s", g, "é")); it.MoveNext(); {
+				gotSl[g] = append(gotSl[g], int(it.Current().Val))
+			}
+		}()
+	}
 	close(start)
 	wg.Wait()
+	for g := range gotM {
+		if fmt.Sprint(gotM[g]) != fmt.Sprint(wantM[g]) {
+			return fmt.Sprintf("map iterator %d consumed in parallel delivered %v, its map holds %v", g, gotM[g], wantM[g])
+		}
+		if want := fmt.Sprint([]int{g, g + 2, g + 4, sc.N + 3, 's', '0' + g, 'é'}); fmt.Sprint(gotSl[g]) != want {
+			return fmt.Sprintf("slice/string iterators %d consumed in parallel delivered %v, want %v", g, gotSl[g], want)
+		}
+	}
 	// (the solo run comes last: nothing is warmed up on this goroutine beforehand)
 	solo := drainValues(seq.Start(root), sc.N)
 	for g := range got {
